@@ -15,7 +15,7 @@ Leaves bound here (none of them is decided inside the property):
 
 GROUP = {'name': 'GraphBuild',
  'imports': ['Cellml.Tie.GraphView'],
- 'header': 'open C09',
+ 'header': 'open Cellml.Tie.PGraph\nopen C09',
  'functions': [{'file': 'cellmlmanip/model.py',
                 'func': 'Model.graph',
                 'lean_name': 'graph',
